@@ -331,5 +331,170 @@ theorem ofCol_toCol (G : SimpleG) (k : Nat) (α : Assign) (h : ColoringSpec G k 
   · rw [beq_iff_eq]
     exact hfun rfl _ hv1 hvn _ _ sp.1 sp.2.1 hc1 hck sp.2.2 (by rw [hmap]; exact hα)
 
+/-! ### even colouring -/
+
+theorem filter_lt_append_filter_gt (l : List Nat) (w : Nat) (hs : l.Pairwise (· < ·)) (hw : w ∉ l) :
+    l.filter (fun x => x < w) ++ l.filter (fun x => w < x) = l := by
+  induction l with
+  | nil => simp
+  | cons x xs ih =>
+    rw [List.pairwise_cons] at hs
+    have hxw : x ≠ w := fun h => hw (by simp [h])
+    have hw' : w ∉ xs := fun h => hw (List.mem_cons_of_mem _ h)
+    by_cases hlt : x < w
+    · simp only [List.filter_cons, hlt, decide_true, if_true, Nat.lt_asymm hlt, decide_false]
+      simp only [Bool.false_eq_true, if_false, List.cons_append]
+      rw [ih hs.2 hw']
+    · have hgt : w < x := by omega
+      have h1 : (x :: xs).filter (fun y => y < w) = [] := by
+        rw [List.filter_eq_nil_iff]
+        intro a ha
+        simp only [List.mem_cons] at ha
+        rcases ha with rfl | ha
+        · simp; omega
+        · have := hs.1 a ha; simp; omega
+      have h2 : (x :: xs).filter (fun y => w < y) = x :: xs := by
+        rw [List.filter_eq_self]
+        intro a ha
+        simp only [List.mem_cons] at ha
+        rcases ha with rfl | ha
+        · simp; omega
+        · have := hs.1 a ha; simp; omega
+      rw [h1, h2]; rfl
+
+theorem loNbrs_eq (hG : GoodGraph G) {w : Nat} (hwn : w ≤ G.n) :
+    loNbrs G w = (G.nbrs w).filter (fun x => x < w) := by
+  apply List.Pairwise.eq_of_mem_iff (r := (· < ·))
+  · exact (rangeN_one_sorted G.n).sublist List.filter_sublist
+  · exact (hG.sorted hwn).sublist List.filter_sublist
+  · intro u
+    simp only [loNbrs, List.mem_filter, mem_rangeN_one, List.contains_iff_mem, decide_eq_true_eq,
+      mem_upNbrs hG]
+    constructor
+    · rintro ⟨_, hlt, hw, hun⟩
+      exact ⟨hG.symm hun hw, hlt⟩
+    · rintro ⟨hu, hlt⟩
+      have hm := hG.mem hwn hu
+      exact ⟨⟨hm.1, hm.2.1⟩, hlt, hm.2.2.2, hm.2.1⟩
+
+theorem upNbrs_eq' (hG : GoodGraph G) {w : Nat} (hw1 : 1 ≤ w) (hwn : w ≤ G.n) :
+    upNbrs G w = (G.nbrs w).filter (fun x => w < x) := by
+  apply List.Pairwise.eq_of_mem_iff (r := (· < ·))
+  · exact upNbrs_sorted hG w
+  · exact (hG.sorted hwn).sublist List.filter_sublist
+  · intro u
+    simp only [List.mem_filter, decide_eq_true_eq, mem_upNbrs hG]
+    constructor
+    · rintro ⟨h1, h2, _⟩; exact ⟨h2, h1⟩
+    · rintro ⟨h1, h2⟩; exact ⟨h2, h1, hwn⟩
+
+/-- `e.indices(w, None)` enumerates the edges at `w` in the order of `G.neighbors(w)` -/
+theorem incidentLits_eq (hG : GoodGraph G) {w : Nat} (hw1 : 1 ≤ w) (hwn : w ≤ G.n) :
+    incidentLits G w = tseitinLits G w := by
+  unfold incidentLits incidentPairs tseitinLits
+  have hup : (upNbrs G w).filter (fun x => x != w) = upNbrs G w := by
+    rw [List.filter_eq_self]
+    intro a ha
+    have := ((mem_upNbrs hG).1 ha).1
+    simp; omega
+  have hnot : w ∉ G.nbrs w := fun h => (hG.mem hwn h).2.2.1 rfl
+  rw [hup, loNbrs_eq hG hwn, upNbrs_eq' hG hw1 hwn, List.map_append, List.map_map, List.map_map]
+  conv_rhs => rw [← filter_lt_append_filter_gt (G.nbrs w) w (hG.sorted hwn) hnot]
+  rw [List.map_append]
+  congr 1
+  apply List.map_congr_left
+  intro x _
+  simp only [Function.comp]
+  rw [edgeId_comm]
+
+/-- at every vertex exactly half of the incident edge variables are true -/
+def EvenColoringSpec (G : SimpleG) (α : Assign) : Prop :=
+  ∀ v, 1 ≤ v → v ≤ G.n →
+    (G.nbrs v).countP (fun u => α (edgeId G 1 u v)) = (G.nbrs v).length / 2
+
+theorem evenColoringF_holds_iff (G : SimpleG) (hG : GoodGraph G) (α : Assign) :
+    (evenColoringF G).holds α = true ↔ EvenColoringSpec G α := by
+  unfold Formula.holds evenColoringF EvenColoringSpec
+  simp only [List.all_map, List.all_eq_true, mem_rangeN_one, Function.comp, Con.holds, Op.denote,
+    decide_eq_true_eq]
+  constructor
+  · intro h v h1 h2
+    have := h v ⟨h1, h2⟩
+    rw [incidentLits_eq hG h1 h2, count_tseitinLits] at this
+    simp only [tseitinLits, List.length_map] at this
+    omega
+  · intro h v hv
+    rw [incidentLits_eq hG hv.1 hv.2, count_tseitinLits, h v hv.1 hv.2]
+    simp only [tseitinLits, List.length_map]
+
+theorem evenColoringF_wf (G : SimpleG) (hG : GoodGraph G) : (evenColoringF G).WF := by
+  intro c hc l hl
+  simp only [evenColoringF, List.mem_map, mem_rangeN_one] at hc
+  obtain ⟨v, hv, rfl⟩ := hc
+  simp only [Con.lits] at hl
+  rw [incidentLits_eq hG hv.1 hv.2] at hl
+  simp only [tseitinLits, List.mem_map] at hl
+  obtain ⟨u, hu, rfl⟩ := hl
+  have hb := edgeId_bounds hG 1 hv.2 hu
+  rw [edgeId_comm] at hb
+  have : (evenColoringF G).nvars = G.edges.length := rfl
+  rw [this]
+  constructor
+  · omega
+  · simp only [Int.natAbs_natCast]; omega
+
+/-- the generator accepts exactly the graphs without a vertex of odd degree -/
+theorem evenColoring_ok_iff (G : SimpleG) :
+    (∃ F, evenColoring G = .ok F) ↔ ∀ v, 1 ≤ v → v ≤ G.n → (G.nbrs v).length % 2 = 0 := by
+  unfold evenColoring
+  constructor
+  · rintro ⟨F, hF⟩ v h1 h2
+    split at hF
+    · cases hF
+    · rename_i hany
+      simp only [List.any_eq_true, mem_rangeN_one, beq_iff_eq, not_exists, not_and] at hany
+      have := hany v ⟨h1, h2⟩
+      omega
+  · intro h
+    refine ⟨evenColoringF G, ?_⟩
+    rw [if_neg]
+    simp only [List.any_eq_true, mem_rangeN_one, beq_iff_eq, not_exists, not_and]
+    intro v hv
+    have := h v hv.1 hv.2
+    omega
+
+/-- summing the vertex equations over a vertex set closed under adjacency: the half-degrees
+add up to an even number.  When all degrees are even this sum is the number of edges inside the
+set, so every connected component of a satisfiable instance has an even number of edges. -/
+theorem evenColoring_parity (G : SimpleG) (hG : GoodGraph G) (α : Assign)
+    (h : EvenColoringSpec G α) (C : Nat → Bool)
+    (hC : ∀ v u, C v = true → u ∈ G.nbrs v → C u = true) :
+    Even (∑ v ∈ (Finset.Icc 1 G.n).filter (fun v => C v = true), (G.nbrs v).length / 2) := by
+  have heven := closed_count_even G hG α C hC
+  have : ∑ v ∈ (Finset.Icc 1 G.n).filter (fun v => C v = true), (G.nbrs v).length / 2 =
+      ∑ a ∈ Finset.range (G.n + 1),
+        (if C a = true then (G.nbrs a).countP (fun u => α (edgeId G 1 u a)) else 0) := by
+    rw [Finset.sum_filter]
+    have hsub : Finset.Icc 1 G.n ⊆ Finset.range (G.n + 1) := by
+      intro x hx; simp only [Finset.mem_Icc] at hx; simp only [Finset.mem_range]; omega
+    rw [← Finset.sum_subset hsub]
+    · apply Finset.sum_congr rfl
+      intro v hv
+      simp only [Finset.mem_Icc] at hv
+      by_cases hc : C v = true
+      · simp only [hc, if_true]; exact (h v hv.1 hv.2).symm
+      · simp only [hc, Bool.false_eq_true, if_false]
+    · intro x hx hnx
+      simp only [Finset.mem_range] at hx
+      simp only [Finset.mem_Icc, not_and, not_le] at hnx
+      have : x = 0 := by
+        rcases Nat.eq_zero_or_pos x with h0 | h0
+        · exact h0
+        · have := hnx h0; omega
+      subst this
+      simp [hG.1]
+  rw [this]
+  exact heven
+
 end Fam
 end Cnfgen
